@@ -1,7 +1,57 @@
-//! Replay of the non-static engines (filled in as the engines are added).
+//! Replay of the non-static engines.
+use crate::choicesat::{replay, ExploreCfg};
+use crate::dynamic::{history_str, judge_history, run_history, DynKind, Op};
+use crate::replay::fv_from_name;
+use crate::staticq::cadical_factory;
 use serde_json::Value;
 
-pub fn run(engine: &str, _prop: &str, _path: &str, _v: &Value) -> i32 {
-    eprintln!("replay: unknown engine {:?}", engine);
-    2
+pub fn run(engine: &str, prop: &str, path: &str, v: &Value) -> i32 {
+    let case = &v["case"];
+    match engine {
+        "dynamic" => {
+            let kind = DynKind::from_name(case["solver"].as_str().unwrap()).expect("unknown solver");
+            let ops: Vec<Op> = case["history"].as_array().unwrap().iter().map(Op::from_json).collect();
+            let choices: Vec<usize> = case["choices"].as_array().map(|a| a.iter().map(|x| x.as_u64().unwrap() as usize).collect()).unwrap_or_default();
+            let backend = case["backend"].as_str().unwrap_or("cadical");
+            println!("case: {} history [{}] backend={} choices={:?}", kind.name(), history_str(&ops), backend, choices);
+            let mut all = vec![];
+            for i in 0..2 {
+                let obs = if backend == "cadical" {
+                    run_history(kind, &ops, cadical_factory())
+                } else {
+                    let cfg = ExploreCfg { fv: fv_from_name(case["free_var_policy"].as_str().unwrap_or("false")), faults: case["faults"].as_bool().unwrap_or(false), cap_alts: case["cap_alts"].as_u64().unwrap_or(16) as usize, ..ExploreCfg::default() };
+                    let (r, _, div) = replay(&cfg, &choices, &mut |f| run_history(kind, &ops, f));
+                    if let Some(d) = div {
+                        eprintln!("MACHINERY-ERROR: {}", d);
+                        return 2;
+                    }
+                    match r {
+                        Ok(o) => o,
+                        Err(p) => {
+                            println!("run {}: panic outside a step: {}", i + 1, p);
+                            vec![]
+                        }
+                    }
+                };
+                println!("run {}: observations {:?}", i + 1, obs.iter().map(|o| o.describe()).collect::<Vec<_>>());
+                all.push(obs);
+            }
+            if all[0] != all[1] {
+                eprintln!("MACHINERY-ERROR: the two replays differ (uncontrolled nondeterminism)");
+                return 2;
+            }
+            match judge_history(kind, &ops, &all[0]) {
+                Some(d) => {
+                    println!("deviation: [{}] {}", d.key, d.message);
+                    println!("VIOLATION property={} replay={}", prop, path);
+                    1
+                }
+                None => {
+                    println!("no deviation on the current tree");
+                    0
+                }
+            }
+        }
+        other => crate::replay_third::run(other, prop, path, v),
+    }
 }
